@@ -33,6 +33,17 @@ impl Clone for Counted {
         Counted { t: self.t.clone(), id: self.id }
     }
 }
+// neutral elements for the shortcuts of the deep form (`e + g*0` adds g to the variable list without an occurrence)
+impl From<u8> for Counted {
+    fn from(n: u8) -> Self {
+        Counted { t: Term::Num(n.to_string()), id: None }
+    }
+}
+impl PartialEq for Counted {
+    fn eq(&self, o: &Self) -> bool {
+        self.t == o.t
+    }
+}
 impl FromStr for Counted {
     type Err = String;
     fn from_str(s: &str) -> Result<Self, Self::Err> {
@@ -90,9 +101,26 @@ fn counts(n: usize) -> Vec<u64> {
     })
 }
 
-fn one(text: &str, compile: bool) -> Value {
+fn one(text: &str, compile: bool, ghost: &[String]) -> Value {
+    // the ghost construction is part of the script, not of what is observed
+    let with_ghosts = |e: FlatC| -> exmex::ExResult<FlatC> {
+        if ghost.is_empty() {
+            return Ok(e);
+        }
+        let mut d = e.to_deepex()?;
+        for g in ghost {
+            let gtext: &'static str = Box::leak(format!("{{{g}}}").into_boxed_str());
+            let zero = (FlatC::parse(gtext)?.to_deepex()? * FlatC::parse("0")?.to_deepex()?)?;
+            d = (d + zero)?;
+        }
+        FlatC::from_deepex(d)
+    };
     let r = guarded(|| -> exmex::ExResult<Value> {
         let e = if compile { FlatC::parse(text)? } else { FlatC::parse_wo_compile(text)? };
+        let e = match with_ghosts(e) {
+            Ok(e) => e,
+            Err(_) => return Ok(json!({"outcome": "script"})),
+        };
         let names = e.var_names().to_vec();
         let n = names.len();
         let v = vals(&names);
@@ -120,6 +148,7 @@ fn one(text: &str, compile: bool) -> Value {
 pub fn main(args: &[String]) -> i32 {
     let o = Opts::parse(args);
     let forward_all = o.has("forward-all");
+    let auto_ghosts = o.has("ghosts");
     let mut logf: Option<std::fs::File> = o.get("tlc-log").map(|p| std::fs::File::create(p).expect("log file"));
     let stdin = std::io::stdin();
     let stdout = std::io::stdout();
@@ -136,14 +165,23 @@ pub fn main(args: &[String]) -> i32 {
         let Some(tv) = rec.get("text") else { return };
         n += 1;
         let text = crate::term::uncps(tv);
-        for compile in [false, true] {
+        let ghost_sets: Vec<Vec<String>> = match rec.get("ghost") {
+            Some(g) => vec![g.as_array().map(|a| a.iter().map(crate::term::uncps).collect()).unwrap_or_default()],
+            None if auto_ghosts => vec![vec![], vec!["A0".to_string()], vec!["zz".to_string()], vec!["A0".to_string(), "zz".to_string()]],
+            None => vec![vec![]],
+        };
+        for (ghost, compile) in ghost_sets.iter().flat_map(|g| [(g, false), (g, true)]) {
+            if compile && !ghost.is_empty() {
+                continue; // the deep round trip compiles anyway
+            }
             runs += 1;
             crate::term::reset_intern();
-            let obs = one(&text, compile);
+            let obs = one(&text, compile, ghost);
             // identical to the TLC expectation: all three values equal the expected tree and the
             // clone counts equal the model's
             let same = obs["outcome"] == "ok"
                 && !compile
+                && ghost.is_empty()
                 && rec.get("den").map(|d| *d == obs["borrow"] && *d == obs["vec"] && *d == obs["iter"]).unwrap_or(false)
                 && rec.get("clones").map(|c| *c == obs["clones_vec"] && *c == obs["clones_iter"]).unwrap_or(false);
             if same {
@@ -155,6 +193,7 @@ pub fn main(args: &[String]) -> i32 {
                 m.insert("case".into(), json!(fwd));
                 m.insert("compiled".into(), json!(compile));
                 m.insert("text".into(), tv.clone());
+                m.insert("ghost".into(), json!(ghost.iter().map(|g| crate::term::cps(g)).collect::<Vec<_>>()));
                 if let Some(t) = rec.get("table") {
                     m.insert("table".into(), t.clone());
                 }
